@@ -134,6 +134,47 @@ pub fn run(seed: u64, n: usize, scratch: &str, out: &str) -> serde_json::Value {
             violations.push(json!({"prop": "C14", "what": format!("{}: a regular file reached through {:?} is not read like the file", kind, p), "known": null, "case": {"kind": kind}}));
         }
     }
+    // objects whose reported size is 0 although reading them gives contents (procfs / sysfs files, a named pipe) or an
+    // error (directories of size 0): the size is a hint, never the truth
+    for pf in ["/proc/version", "/proc/filesystems", "/proc/self/cmdline", "/proc/cpuinfo", "/sys/kernel/ostype"] {
+        if let Ok(content) = std::fs::read(pf) {
+            if content.is_empty() || std::fs::metadata(pf).map(|m| m.len()).unwrap_or(1) != 0 { continue; }
+            // (contents of such files may change between two reads: compare only when two reads agree)
+            if std::fs::read(pf).ok().as_ref() != Some(&content) { continue; }
+            evals += 1;
+            *kinds.entry("size-0-file-with-contents".to_string()).or_insert(0u64) += 1;
+            if real_path(Path::new(pf), &default_settings()) != outcome_lines(&run_real(&content, &default_settings())) {
+                violations.push(json!({"prop": "C14", "what": format!("{} (reported size 0, {} bytes of contents): from_path differs from from_bytes of the contents", pf, content.len()), "known": null, "case": {"kind": "size-0-file-with-contents", "path": pf}}));
+            }
+        }
+    }
+    for zd in ["/proc", "/proc/self", "/sys", "/sys/kernel"] {
+        if std::fs::metadata(zd).map(|m| m.is_dir() && m.len() == 0).unwrap_or(false) {
+            evals += 1;
+            *kinds.entry("size-0-directory".to_string()).or_insert(0u64) += 1;
+            let a = real_path(Path::new(zd), &default_settings());
+            if !a.first().map(|l| l.starts_with("R ERR")).unwrap_or(false) {
+                violations.push(json!({"prop": "C14", "what": format!("directory {} (reported size 0): expected a returned error, got {:?}", zd, a.first()), "known": null, "case": {"kind": "size-0-directory", "path": zd}}));
+            }
+        }
+    }
+    {
+        let fifo = dir.join("pipe.fifo");
+        let made = std::process::Command::new("mkfifo").arg(&fifo).status().map(|s| s.success()).unwrap_or(false);
+        if made {
+            let t: String = rng.pick(&corpus.texts).chars().take(700).collect();
+            let content = encode_text(&t, "windows-1251").filter(|b| !b.is_empty()).unwrap_or_else(|| t.as_bytes().to_vec());
+            let (f2, c2) = (fifo.clone(), content.clone());
+            let writer = std::thread::spawn(move || { if let Ok(mut f) = std::fs::OpenOptions::new().write(true).open(&f2) { use std::io::Write; let _ = f.write_all(&c2); } });
+            evals += 1;
+            *kinds.entry("named-pipe".to_string()).or_insert(0u64) += 1;
+            let got = real_path(&fifo, &default_settings());
+            let _ = writer.join();
+            if got != outcome_lines(&run_real(&content, &default_settings())) {
+                violations.push(json!({"prop": "C14", "what": format!("a named pipe carrying {} bytes: from_path differs from from_bytes of the bytes written ({:?})", content.len(), got.first()), "known": null, "case": {"kind": "named-pipe"}}));
+            }
+        }
+    }
     evals += 1;
     if real_path(&good_link, &default_settings()) != outcome_lines(&run_real(b"hello", &default_settings())) {
         violations.push(json!({"prop": "C14", "what": "a symlink to a regular file is not read like the file", "known": null, "case": {"kind": "symlink"}}));
